@@ -5,7 +5,10 @@ precision than the commodity displays, so that rounding is exercised) compared b
 with the extracted model (Model/AmountText.v: reader, pool learning, printer; Base/Round.v: MPFR
 rounding model).  Oracle (from the property text, Fractions): number of decimals = the largest
 number of decimals written for the commodity, |shown - exact| <= half a unit in the last place,
-one consistent style per commodity, and the printed text re-read by ledger is the same quantity."""
+one consistent style per commodity, and the printed text re-read by ledger is the same quantity.
+A second stream runs journals written with decimal commas throughout under --decimal-comma (Model/DecimalComma.v, whose
+reader/printer conditions are regenerated from amount.cc into Gen/DecimalComma.v): same comparison, same oracle, and the
+re-read - with the option - must be exact for every number of decimals (3, 6, 9, 12 included: the class F21 is about)."""
 import re
 from fractions import Fraction as F
 import lib
@@ -14,11 +17,11 @@ META = dict(
     id='C04',
     level='proof',
     technique='Coq proof (half-ulp bound of the two-stage MPFR rounding model, exact half-even roundto, pool learning is max/or and order-free, digit-text round trip) + differential correspondence of reader/printer against ledger',
-    level_text='Theorems in coq/Properties/Properties_C04.v: for every rational n/d and display precision p (hypothesis 10^p <= 2^(bits d + 767), true of every p <= 230) the integer ledger prints at p decimals is within half a unit of n/d*10^p (never a truncation); in_place_roundto is exact round-half-even; the display precision rule; what the pool learns is the max of the decimals and the or of the style flags of the amounts seen, independent of their order; the quantity reader recovers the integer and the precision from every plain decimal text the printer emits. The model (reader, learning, printer incl. grouping, decimal comma, quoting, zero trimming) is tied to the code by byte-for-byte comparison of thousands of printed amounts and their exact rationals, and the invalid_chars table and extend_by_digits are regenerated from the source on every run.',
+    level_text='Theorems in coq/Properties/Properties_C04.v: for every rational n/d and display precision p (hypothesis 10^p <= 2^(bits d + 767), true of every p <= 230) the integer ledger prints at p decimals is within half a unit of n/d*10^p (never a truncation); in_place_roundto is exact round-half-even; the display precision rule; what the pool learns is the max of the decimals and the or of the style flags of the amounts seen, independent of their order; the quantity reader recovers the integer and the precision from every plain decimal text the printer emits. The model (reader, learning, printer incl. grouping, decimal comma, quoting, zero trimming) is tied to the code by byte-for-byte comparison of thousands of printed amounts and their exact rationals, and the invalid_chars table and extend_by_digits are regenerated from the source on every run. --decimal-comma: the three places where the option enters the reader and the printer are transcribed from amount.cc on every run (Gen/DecimalComma.v); with them, reader and printer decide alike in every session, every accepted amount teaches the style, and a decimal-comma text (thousands periods or not, ANY number of decimals) is read back as exactly the number printed once the style is known - by the option or by the commodity (reread_in_the_same_session); journals written with decimal commas are run with the option and compared byte for byte.',
     level_note='Trusted: Coq kernel; the MPFR model (mpfr_div at bits(n)+bits(d)+768 bits RNDN then %.*RNf half-even) is modelled, validated by the correspondence on ties; extraction/driver/python harness for the correspondence. The print->parse round trip is proved for plain decimal texts (digits and point); thousands marks, decimal comma, quoted symbols and symbol placement are covered by the correspondence and the re-read oracle only (stated as partial). Lot annotations are not modelled here.',
     design_ref='DESIGN.md section 7 C04, sections 6.3-6.4',
     assumptions=['commodity symbols avoid s/m/h (predefined time units)',
-                 'no commodity format directives in the generated journals',
+                 '--decimal-comma is exercised without --percent (report.cc switches the default off again there) and without --time-colon',
                  'no backslash in commodity symbols (the stream reader takes it as an escape, the in-memory one does not)'],
 )
 
@@ -146,6 +149,56 @@ def gen_symbol_sweep(rng):
     return out
 
 
+def gen_journal_dc(rng, n):
+    """a journal meant to be read and reported with --decimal-comma: every amount, commodity-less ones included, is written
+    with a decimal comma (and periods as thousands marks) from the first posting on - the option makes `1,234` and `1.234`
+    unambiguous - and the numbers of decimals favour 3, 6, 9, 12 (the class of F21)"""
+    nsym = rng.choice([1, 2, 2, 3])
+    syms = rng.sample(SYMBOLS, nsym)
+    styles = {}
+    for s in syms:
+        styles[s] = dict(side=rng.choice(['pre', 'suf']), sep=rng.random() < 0.5, dcomma=True,
+                         thousands=rng.random() < 0.6, maxdec=rng.choice([0, 2, 3, 3, 4, 6, 6, 9, 12]))
+    out = []
+    for i in range(n):
+        if rng.random() < 0.12:
+            w = Written(rng, None, 'pre', False, False, True, rng.choice([0, 2, 3, 5]))
+        else:
+            s = rng.choice(syms)
+            st = styles[s]
+            w = Written(rng, s, st['side'], st['sep'], st['thousands'] and rng.random() < 0.8, True, st['maxdec'])
+        w.dcomma = True
+        out.append(w)
+    out = WS(out)
+    if rng.random() < 0.25:
+        s = rng.choice(syms)
+        f = Written(rng, s, rng.choice(['pre', 'suf']), rng.random() < 0.5, rng.random() < 0.5, True, rng.choice([0, 2, 3, 6]))
+        f.dcomma = True
+        out.fmt = (0 if rng.random() < 0.6 else rng.randrange(0, n), f)
+    return out
+
+
+class Raw:
+    """a directed amount text for the reader alone (correspondence only: accepted or refused, and as what)"""
+    raw = True
+    sym = None
+    dcomma = False
+    dec = 0
+    value = None
+
+    def __init__(self, text):
+        self.text = text
+
+
+# periods and commas in every arrangement the right-to-left scan tells apart; each is read by a session with and one
+# without --decimal-comma
+DIRECTED = ['1.23 EUR', '1,23 EUR', '1.234,5 EUR', '1,234.5 EUR', '1.234.567 EUR', '1,234,567 EUR', '1.23.456 EUR',
+            '1,23,456 EUR', '1.234,567.8 EUR', '1,234.567,8 EUR', '12.345 EUR', '12,345 EUR', '1.2345 EUR', '1,2345 EUR',
+            '0,5', '0.5', '1.000', '1,000', '1.000,000', '1,000.000', '$-1.234,50', '-1.234,50 $', '1,234,567.89 EUR',
+            '1.234.567,89 EUR', '1,,2 EUR', '1..2 EUR', '1.,2 EUR', '1,.2 EUR', '12.34,567 EUR', '12,34.567 EUR',
+            '310,200000 EUR', '310.200000 EUR', '1.234,567890123 EUR', '1,5 EUR', '1.5 EUR', '1.234 "K-9"', '"M&M 2" 1,234']
+
+
 def render(ws):
     lines = []
     fmt = getattr(ws, 'fmt', None)
@@ -187,6 +240,9 @@ def add_costs(rng, ws):
 A_ = 'strip(amount)'
 FMT = ('%(account)|%(quoted(' + A_ + '))|%(verif_rational(' + A_ + '))|%(quoted(' + A_ + '/7))|%(verif_rational(' + A_ + '/7))|%(quoted(' + A_ + '*0.333))|'
        '%(verif_rational(' + A_ + '*0.333))|%(justify(' + A_ + ', 0, 0, false, false))\\n')      # the last field: as report columns show it
+
+
+FMT_DC = FMT.replace('0.333', '0,333')      # under --decimal-comma the expression reader takes 0.333 for 333
 
 
 def hexs(s):
@@ -236,21 +292,41 @@ def run(ctx, n_override=None):
                 'space/digits/punctuation) x prefix/suffix x separated x thousands marks x decimal comma x 0-12 decimals x '
                 '1-15 integer digits x sign; each amount also divided by 7 and multiplied by 0.333 so that the internal '
                 'precision exceeds the display precision; non-trivial = the reader accepted it and either rounding was needed '
-                '(shown text differs from the exact value) or a mark/quote/decimal-comma feature is present; distinct by text')
+                '(shown text differs from the exact value) or a mark/quote/decimal-comma feature is present; distinct by text. '
+                'A second stream of journals is written with decimal commas throughout (commodity-less amounts too, 3/6/9/12 '
+                'decimals favoured) and read, reported and re-read with --decimal-comma; 37 directed arrangements of periods '
+                'and commas are read one per journal with and without the option')
     njournals = n_override or ctx.scale(120, 500)
-    model_lines, journals = [], []
+    journals = []
     for j in range(njournals):
         ws = gen_symbol_sweep(rng) if j % 40 == 7 else gen_journal(rng, rng.randrange(20, 60))
         if j % 3 == 1:
             add_costs(rng, ws)
         journals.append(ws)
+    check_journals(ctx, res, journals, 'j', False)
+    plain_totals(ctx, rng, res)
+    # --decimal-comma: journals written, read, reported and re-read with the option (generated after the streams above so
+    # that those keep their cases seed for seed)
+    ndc = max(4, n_override // 5) if n_override else ctx.scale(24, 120)
+    check_journals(ctx, res, [gen_journal_dc(rng, rng.randrange(15, 45)) for _ in range(ndc)], 'd', True)
+    # directed arrangements of periods and commas, one amount per journal, each in a session with and without the option
+    for dc in (False, True):
+        check_journals(ctx, res, [WS([Raw(t)]) for t in DIRECTED], 'r' if dc else 'q', dc)
+    return res
+
+
+def check_journals(ctx, res, journals, prefix, dc):
+    """correspondence and oracle on a list of journals; dc: the session runs with --decimal-comma"""
+    model_lines = []
+    for j, ws in enumerate(journals):
         items = [w.text.encode('utf-8') for w in ws]
         if getattr(ws, 'fmt', None):
             items.insert(ws.fmt[0], ['fmt', ws.fmt[1].text.encode('utf-8')])
-            res.count('format-directive:' + ('in-front' if ws.fmt[0] == 0 else 'inside'))
+            res.count(('decimal-comma-option:' if dc else '') + 'format-directive:' + ('in-front' if ws.fmt[0] == 0 else 'inside'))
         if getattr(ws, 'decl', None):
             res.count('commodity-declared-without-format:' + '+'.join(d.split(' ')[0] for d in ws.decl[2]))
-        model_lines.append(lib.sx(['journal', 'j%d' % j] + items))
+        model_lines.append(lib.sx(['journal-dc' if dc else 'journal', '%s%d' % (prefix, j)] + items))
+    opt = ['--decimal-comma'] if dc else []
     mout = []
     for k in range(0, len(model_lines), 60):          # the extracted MPFR model works on 800-bit integers: keep batches small
         mout += lib.run_model('C04', model_lines[k:k + 60], timeout=1200)
@@ -260,9 +336,9 @@ def run(ctx, n_override=None):
         model[(parts[0], int(parts[1]))] = parts[2]
     reread_jobs = []
     for j, ws in enumerate(journals):
-        path = ctx.path('j%d.dat' % (j % 8))
+        path = ctx.path('%s%d.dat' % (prefix, j % 8))
         open(path, 'w', encoding='utf-8').write(render(ws))
-        st, out, err = lib.run_ledger(['-f', path, 'reg', '^Assets', '--empty', '--format', FMT])
+        st, out, err = lib.run_ledger(['-f', path] + opt + ['reg', '^Assets', '--empty', '--format', FMT_DC if dc else FMT])
         rows = parse_rows(out)
         errtxt = err.decode('utf-8', 'replace')
         bad_lines = set(int(x) for x in re.findall(r'line (\d+):', errtxt))
@@ -283,21 +359,21 @@ def run(ctx, n_override=None):
         printed = []
         for i, w in enumerate(ws):
             res.evaluations += 1
-            key = ('j%d' % j, i)
+            key = ('%s%d' % (prefix, j), i)
             m = model.get(key, 'MISSING')
             if i not in rows:
                 impl = 'E'
-                res.count('impl:rejected')
+                res.count(('decimal-comma-option:' if dc else '') + 'impl:rejected')
             else:
                 r = rows[i]
                 impl = '|'.join([hexs(r[0]), r[1], hexs(r[2]), r[3], hexs(r[4]), r[5], hexs(r[6])])
-                res.count('impl:printed')
+                res.count(('decimal-comma-option:' if dc else '') + 'impl:printed')
             res.traces += 1
             if impl != m:
-                res.disagreements.append(dict(name='C04/print', case=w.text, journal=path, impl=impl, model=m))
+                res.disagreements.append(dict(name='C04/print' + ('-decimal-comma' if dc else ''), case=w.text, journal=render(ws) if len(ws) < 3 else path, impl=impl, model=m))
             if len(res.samples) < 5 and i in rows and w.sym and w.dec:
                 res.samples.append(dict(written=w.text, printed=rows[i][0], exact=rows[i][1], div7=rows[i][2]))
-            if i not in rows:
+            if i not in rows or getattr(w, 'raw', False):
                 continue
             # ---- oracle on ledger's own output
             r = rows[i]
@@ -308,21 +384,32 @@ def run(ctx, n_override=None):
                 sym, exact, prec = rr
                 if k == 0 and exact != w.value:
                     res.violations.append(dict(key='read:wrong-quantity', desc='%r read as %s, written value %s' % (w.text, exact, w.value),
-                                               case=dict(journal=render(ws)), observed=str(exact), required=str(w.value)))
+                                               case=dict(journal=render(ws), options=opt), observed=str(exact), required=str(w.value)))
                 if not w.sym:
+                    # with the option a commodity-less amount is written with a decimal comma too: it must denote the
+                    # quantity exactly (it is shown with its own decimals) and is re-read below
+                    if dc and k == 0:
+                        sn = shown_number(txt, '', True)
+                        if sn is None or sn[0] != exact:
+                            res.violations.append(dict(key='print:commodity-less-under-decimal-comma', desc='%r shown for the commodity-less %s in a --decimal-comma session' % (txt, exact),
+                                                       case=dict(journal=render(ws), options=opt), observed=txt, required='the exact quantity, written with a decimal comma'))
+                        else:
+                            printed.append((i, txt, exact, ''))
+                            if ',' in txt:
+                                res.nontrivial.add('dc|' + txt + '|' + rat)
                     continue
                 sn = shown_number(txt, w.sym, w.dcomma)
                 if sn is None:
-                    res.violations.append(dict(key='print:unreadable', desc='printed %r' % txt, case=dict(journal=render(ws)), observed=txt, required='an amount'))
+                    res.violations.append(dict(key='print:unreadable', desc='printed %r' % txt, case=dict(journal=render(ws), options=opt), observed=txt, required='an amount'))
                     continue
                 shown, dec = sn
                 want_dec = cp[w.sym]
                 if dec != want_dec:
                     res.violations.append(dict(key='print:decimals', desc='%r shown with %d decimals, commodity precision is %d' % (txt, dec, want_dec),
-                                               case=dict(journal=render(ws)), observed=txt, required='%d decimals' % want_dec))
+                                               case=dict(journal=render(ws), options=opt), observed=txt, required='%d decimals' % want_dec))
                 if abs(shown - exact) * 2 > F(1, 10 ** want_dec):
                     res.violations.append(dict(key='print:not-nearest', desc='%r shown for exact %s: off by more than half a unit' % (txt, exact),
-                                               case=dict(journal=render(ws)), observed=txt, required='within 1/2 ulp of %s' % exact))
+                                               case=dict(journal=render(ws), options=opt), observed=txt, required='within 1/2 ulp of %s' % exact))
                 # learned style: a commodity written with thousands marks groups its integer digits in threes
                 if w.sym in marks:
                     body = re.sub(r'[^0-9.,]', '', txt.replace('"%s"' % w.sym, '').replace(w.sym, ''))
@@ -330,14 +417,14 @@ def run(ctx, n_override=None):
                     m_ = '.' if w.dcomma else ','
                     if not re.fullmatch(r'\d{1,3}(%s\d{3})*' % re.escape(m_), ip):
                         res.violations.append(dict(key='print:grouping', desc='%r: the integer part %r is not grouped in threes' % (txt, ip),
-                                                   case=dict(journal=render(ws)), observed=txt, required='thousands marks every three digits'))
+                                                   case=dict(journal=render(ws), options=opt), observed=txt, required='thousands marks every three digits'))
                 elif not getattr(w, 'dcomma', False):
                     body = re.sub(r'[^0-9.,]', '', txt.replace('"%s"' % w.sym, '').replace(w.sym, ''))
                     if ',' in body:
                         res.violations.append(dict(key='print:marks-not-learned', desc='%r: thousands marks although no amount that teaches %s was written with them' % (txt, w.sym),
-                                                   case=dict(journal=render(ws)), observed=txt, required='no thousands marks'))
+                                                   case=dict(journal=render(ws), options=opt), observed=txt, required='no thousands marks'))
                 if shown != exact or any(c in txt for c in '",') or (k == 0 and len(w.text) > 12):
-                    res.nontrivial.add(txt + '|' + rat)
+                    res.nontrivial.add(('dc|' if dc else '') + txt + '|' + rat)
                 if k == 0:
                     if shown == exact:      # the re-read clause is about amounts printed at full precision: below a precision fixed by a
                         printed.append((i, txt, exact, w.sym))      # format directive the display rounds, and that text is another quantity
@@ -350,16 +437,18 @@ def run(ctx, n_override=None):
                               and (col.endswith(' ' + w.sym) or col.startswith(w.sym + ' '))) or (col == '0' and shown == 0)
                         if not ok:
                             res.violations.append(dict(key='column:quotes-dropped', desc='a report column shows %r for %r: not the learned style, and no longer denotes %s %s' % (col, txt, exact, w.sym),
-                                                       case=dict(journal=render(ws)), observed=col, required=txt))
+                                                       case=dict(journal=render(ws), options=opt), observed=col, required=txt))
         reread_jobs.append((j, printed, cp))
     # ---- re-read oracle: ledger must accept its own full-precision text and get the same quantity
     for j, printed, cp in reread_jobs[:ctx.scale(40, 400)]:
+        if not printed:
+            continue
         lines = []
         for i, txt, exact, sym in printed:
             lines += ['2020/01/01 p%d' % i, '    Assets:A%d    %s' % (i, txt), '    Equity:Open', '']
         path = ctx.path('reread.dat')
         open(path, 'w', encoding='utf-8').write('\n'.join(lines))
-        st, out, err = lib.run_ledger(['-f', path, 'reg', '^Assets', '--empty', '--format', '%(account)|%(verif_rational(amount))\\n'])
+        st, out, err = lib.run_ledger(['-f', path] + opt + ['reg', '^Assets', '--empty', '--format', '%(account)|%(verif_rational(amount))\\n'])
         got = {}
         for line in out.decode('utf-8', 'replace').split('\n'):
             m = re.match(r'Assets:A(\d+)\|(.*)$', line)
@@ -373,10 +462,10 @@ def run(ctx, n_override=None):
                 # which later amounts of this journal are rejected and ledger prints no report at all
                 ambiguous = any(c > 0 and c % 3 == 0 and re.search(r',\d{%d}(\D|$)' % c, t2) is not None and s2 == sy
                                 for (_, t2, _, s2) in printed for sy, c in cp.items())
-                res.violations.append(dict(key='reread:decimal-comma-precision-multiple-of-3' if ambiguous else 'reread:changed', desc='printed %r re-reads as %s, was %s %s' % (txt, g, exact, sym),
-                                           case=dict(journal='\n'.join(lines)), observed=str(g), required='%s %s' % (exact, sym)))
-    plain_totals(ctx, rng, res)
-    return res
+                res.violations.append(dict(key='reread:changed-under-decimal-comma' if dc else 'reread:decimal-comma-precision-multiple-of-3' if ambiguous else 'reread:changed', desc='printed %r re-reads as %s, was %s %s' % (txt, g, exact, sym),
+                                           case=dict(journal='\n'.join(lines), options=opt), observed=str(g), required='%s %s' % (exact, sym)))
+
+
 
 
 def plain_totals(ctx, rng, res):
@@ -454,7 +543,8 @@ def replay(ctx, obj):
     if 'journal' in case:
         path = ctx.path('replay.dat')
         open(path, 'w', encoding='utf-8').write(case['journal'])
-        st, out, err = lib.run_ledger(['-f', path, 'reg', '^Assets', '--format', FMT])
+        opt = list(case.get('options') or [])
+        st, out, err = lib.run_ledger(['-f', path] + opt + ['reg', '^Assets', '--format', FMT_DC if opt else FMT])
         print(out.decode('utf-8', 'replace')[:2000])
         print(err.decode('utf-8', 'replace')[:500])
     return res
